@@ -1,4 +1,5 @@
 import HranoModel.Lemmas.Present
+import HranoModel.Lemmas.Colour
 /-!
 C15 — presentation options never change the numbers.
 
@@ -6,9 +7,10 @@ Property theorems only (helper lemmas: `Lemmas/Present.lean`).  Proved: colour b
 at the level of every printed figure; default register = no-totals and totals-only interleaved; the three
 templates and the old reporter draw their figures from the same report item / accumulator; the shape of a
 shortened name; `--desc` is a permutation ordered the other way; flag position of `--no-color`.
-Not proved (stated in DESIGN.md; checked by the correspondence and by relations between the program's own
-outputs): colour-stripping of a *whole* report when names themselves contain ESC bytes is false by
-construction, so the whole-report statement needs the hypothesis that names hold no ESC and is left to the check.
+Colour-stripping of a *whole* register day (`strip_colour_register`): removing the escape codes from the
+coloured output of the default and the left-aligned template, with or without `--shorten`, totals,
+totals-only, gives the plain output byte for byte — under the hypothesis that the date text and the names
+shown hold no ESC byte themselves (with an ESC inside a name the statement is false by construction).
 -/
 namespace Hrano.C15
 open Hrano Hrano.Report
@@ -32,6 +34,14 @@ theorem colour_by_sign (v : Q) :
 theorem strip_colour_figure (v : Q) (rest : Bytes) :
     stripAnsi (fmtVal true v ++ rest) = fmtVal false v ++ stripAnsi rest :=
   strip_fmtVal v rest
+
+/-- **coloured register output minus the escape codes is the plain register output**, for a whole day block of the
+    default and of the left-aligned template, whatever the other presentation options are -/
+theorem strip_colour_register (cfg : RCfg) (d : LogDay) (db : Book) (hdate : noEsc (Date.format cfg.dateLayout d.date))
+    (hn : NamesPlain db d) :
+    stripAnsi (renderDefault { cfg with color := true } d db) = renderDefault { cfg with color := false } d db
+    ∧ stripAnsi (renderLeft { cfg with color := true } d db) = renderLeft { cfg with color := false } d db :=
+  ⟨strip_renderDefault cfg d db hdate hn, strip_renderLeft cfg d db hdate hn⟩
 
 /-- text without ESC bytes is untouched by the stripping -/
 theorem strip_plain (a rest : Bytes) (h : noEsc a) : stripAnsi (a ++ rest) = a ++ stripAnsi rest :=
